@@ -185,6 +185,12 @@ def r04_1(prog, rep):
             else:
                 kind, text, e = a
                 e = strip(e)
+                if isinstance(e, dict) and e.get("k") == "ref" and e.get("dk") == "local":
+                    # `exhaustedp = echs_event_0_p(e)` tested later: a flag that is set once stands for the call that set it
+                    from ..q import local_decl_init
+                    inits, other = local_decl_init(f, e["n"], e.get("id"))
+                    if other == 0 and len(inits) == 1 and inits[0] is not None:
+                        e = strip(cfg.resolve(inits[0]))
                 if isinstance(e, dict) and e.get("k") == "call" and e.get("fn") in ("echs_event_0_p", "echs_nul_event_p"):
                     out.add(("null" if kind == "true" else "nonnull", "e"))
         return out
